@@ -358,6 +358,19 @@ func (e *Enc) eval(sx *Sx, env *evalEnv) tv {
 			}
 		}
 		return tv{Val{e.heapGet(env.heap, key, srt), "(Array Ref " + srt + ")"}, nil}
+	case "has-type":
+		// (has-type e <go type>): the interface value e holds a value of exactly that dynamic type
+		x := e.eval(args[0], env)
+		t := e.w.lookupType(args[1].Atom)
+		if t == nil {
+			e.unsupp("has-type: unknown type %s", args[1].Atom)
+			return tv{Val{"true", "Bool"}, nil}
+		}
+		return tv{Val{and(app("distinct", x.v.T, "nil"), app("=", app("dyntype", x.v.T), ilit(e.typeID(t)))), "Bool"}, nil}
+	case "unbox":
+		x := e.eval(args[0], env)
+		t := e.w.lookupType(args[1].Atom)
+		return tv{Val{app("unboxRef", x.v.T), "Ref"}, t}
 	case "cast":
 		// (cast <go type> e): give an untyped reference its Go type so that fields can be selected
 		t := e.w.lookupType(args[0].Atom)
@@ -422,6 +435,16 @@ func (e *Enc) eval(sx *Sx, env *evalEnv) tv {
 		x := e.eval(args[1], env)
 		return tv{Val{app(h, ts...), x.v.S}, x.t}
 	case "+", "-", "*", "div", "mod", "abs":
+		srt := "Int"
+		for _, a := range args {
+			if x := e.eval(a, env); x.v.S == "Real" {
+				srt = "Real"
+			}
+		}
+		return tv{Val{app(h, ts...), srt}, nil}
+	case "/", "to_real":
+		return tv{Val{app(h, ts...), "Real"}, nil}
+	case "to_int":
 		return tv{Val{app(h, ts...), "Int"}, nil}
 	case "select":
 		return tv{Val{app(h, ts...), "Int"}, lastT}
@@ -488,6 +511,9 @@ func (e *Enc) evalAtom(a string, env *evalEnv) tv {
 	}
 	if strings.HasPrefix(a, "\"") {
 		return tv{Val{e.strConst(strings.Trim(a, "\"")), "Str"}, types.Typ[types.String]}
+	}
+	if _, err := strconv.ParseFloat(a, 64); err == nil && strings.Contains(a, ".") {
+		return tv{Val{a, "Real"}, nil}
 	}
 	if b, ok := env.names[a]; ok {
 		return tv{b.val, b.typ}
